@@ -6,7 +6,7 @@
 set -u
 P=$1; K=$2; shift 2
 CHECKS=${@:-$P}
-export GOFLAGS=-mod=mod GOPROXY=off GOSUMDB=off GOTOOLCHAIN=local
+export GOFLAGS="-mod=mod -trimpath" GOPROXY=off GOSUMDB=off GOTOOLCHAIN=local
 S=/tmp/seed/$P; WT=$S/wt; M=$S/m$K; OUT=/verif/seeded/$P-m$K
 mkdir -p $OUT
 git -C $WT reset -q --hard; git -C $WT clean -fdq
